@@ -8,6 +8,7 @@ from __future__ import annotations
 import hashlib
 import json
 import os
+import sys
 import random
 import re
 import time
@@ -36,6 +37,18 @@ def all_option_sets():
 def opts_key(opts: dict) -> str:
     """Canonical short key of a complete option assignment."""
     return "|".join(str(opts[n]) for n in OPTION_NAMES)
+
+
+def as_value(v, fresh: bool = False):
+    """The identity of an option value is part of a run's description, never an accident of how the
+    harness built the string: `interned` is what a literal in the caller's source is, `fresh` what a
+    value computed at run time (str.split, json, argparse) is - equal, but another object."""
+    if not isinstance(v, str):
+        return v
+    if not fresh:
+        return sys.intern(v)
+    w = "".join([v[:1], v[1:]]) if len(v) > 1 else v
+    return w
 
 
 def splitmix64(x: int) -> int:
